@@ -239,13 +239,15 @@ func (st *runState) evalCase(cs caseSpec, fail failer) outcome {
 			fmt.Printf("HARNESS-NOTE %s: %s\n", cs, o.What)
 			return o
 		}
-		st.noteReported(o.Key)
-		if fail(o.Key, o.What, map[string]any{"spec": cs, "outcome": o}) && strings.HasPrefix(o.Key, prefix) {
-			// a listed (protocol, call, fault, position) class was reproduced: it is
-			// excluded by construction for the rest of the run
-			st.mu.Lock()
-			st.confirmed[prefix] = true
-			st.mu.Unlock()
+		for _, k := range o.Keys {
+			st.noteReported(k)
+			if fail(k, o.What, map[string]any{"spec": cs, "outcome": o}) && strings.HasPrefix(k, prefix) {
+				// a listed (protocol, call, fault, position) class was reproduced: it is
+				// excluded by construction for the rest of the run
+				st.mu.Lock()
+				st.confirmed[prefix] = true
+				st.mu.Unlock()
+			}
 		}
 	}
 	return o
